@@ -155,9 +155,51 @@ def r2_replay_agreement(ctx: Ctx) -> None:
     ctx.count("replay_facts", 12)
 
 
+def scope_truthiness(ctx: Ctx) -> None:
+    """`if self.parent:` decides "is there an enclosing scope": scopes must not define their own truthiness"""
+    for ci in [ctx.repo.cls(SYMBOLS, "Scope")] + ctx.repo.subclasses(ctx.repo.cls(SYMBOLS, "Scope")):
+        for dunder in ("__len__", "__bool__"):
+            ctx.count("truthiness_checks")
+            ctx.check(dunder not in ci.methods, f"{ci.name}.{dunder}", "the parent tests `if self.parent:` in value_for/get_table treat a falsy scope as 'no parent'; "
+                      f"with {dunder} an empty enclosing scope ends the outward lookup")
+    tests = 0
+    for q in ("Scope.value_for", "Scope.get_table"):
+        fn = ctx.repo.func(SYMBOLS, q)
+        for n in walk_no_nested(fn.node):
+            if isinstance(n, (ast.If, ast.IfExp, ast.While)) and any(unparse(x) == "self.parent" for x in ([n.test] + (list(n.test.values) if isinstance(n.test, ast.BoolOp) else []))):
+                tests += 1
+    ctx.note(f"{tests} truthiness tests of self.parent in value_for/get_table")
+
+
+class _ContainsInliner(ast.NodeTransformer):
+    """`x in self` -> the body of the class's own __contains__ (single return), so membership facts stay readable"""
+
+    def __init__(self, param: str, body: ast.AST) -> None:
+        self.param, self.body = param, body
+
+    def visit_Compare(self, node: ast.Compare) -> ast.AST:
+        self.generic_visit(node)
+        if len(node.ops) == 1 and isinstance(node.ops[0], (ast.In, ast.NotIn)) and unparse(node.comparators[0]) == "self":
+            import copy
+
+            class _Sub(ast.NodeTransformer):
+                def visit_Name(s2, n: ast.Name) -> ast.AST:  # noqa: N805
+                    return copy.deepcopy(node.left) if n.id == self.param else n
+
+            e = _Sub().visit(copy.deepcopy(self.body))
+            return e if isinstance(node.ops[0], ast.In) else ast.UnaryOp(ast.Not(), e)
+        return node
+
+
 def r3_lookup_chain(ctx: Ctx) -> None:
+    scope_truthiness(ctx)
     vf = ctx.repo.func(SYMBOLS, "Scope.value_for")
     sym = vf.params()[1]
+    cont = ctx.repo.cls(SYMBOLS, "Scope").methods.get("__contains__")
+    if cont is not None:
+        rets = returns_of(cont.node)
+        if len(rets) == 1 and rets[0].value is not None and len(cont.node.body) == 1:
+            vf.node = ast.fix_missing_locations(_ContainsInliner(cont.params()[1], rets[0].value).visit(vf.node))
     if any(isinstance(n, (ast.While, ast.For)) for n in walk_no_nested(vf.node)):
         raise AnalysisError("Scope.value_for walks the scope chain with a loop; the recursive lookup facts cannot be read off")
     vff = return_facts(vf)
@@ -182,12 +224,6 @@ def r3_lookup_chain(ctx: Ctx) -> None:
     ctx.check(reads == [f"self.code_symbols[{gi.params()[1]}]", f"self.symbols[{gi.params()[1]}]"], "Scope.__getitem__:tables", f"reads this scope's own tables; found {reads}")
     gt = ctx.repo.func(SYMBOLS, "Scope.get_table")
     ctx.check(get_table_own_first(gt), "Scope.get_table:own-first", f"a scope's own table wins, else the enclosing scope's; found: {show(return_facts(gt))}")
-    # `if self.parent:` decides "is there an enclosing scope": scopes must not define their own truthiness
-    for ci in [ctx.repo.cls(SYMBOLS, "Scope")] + ctx.repo.subclasses(ctx.repo.cls(SYMBOLS, "Scope")):
-        for dunder in ("__len__", "__bool__"):
-            ctx.count("truthiness_checks")
-            ctx.check(dunder not in ci.methods, f"{ci.name}.{dunder}", "the parent tests `if self.parent:` in value_for/get_table treat a falsy scope as 'no parent'; "
-                      f"with {dunder} an empty enclosing scope ends the outward lookup")
     # nobody else reads the tables for lookup
     allowed = {"Scope", "Resolver", "NamedScope", "InternalScope"}
     for fn in ctx.repo.all_functions():
